@@ -6,7 +6,7 @@ PID = "C20"
 PARALLEL = True
 EXHAUSTIVE = {"quick": False, "thorough": True}
 RULE = ("real sockets bound on real TCP and IPC: raw clients that stop / close / switch to garbage at byte offsets 0..|greeting+READY| of their handshake "
-        "(thorough: every offset; quick: every 7th + boundaries), 1-8 such clients at once, for each bound socket type; a well-behaved client connects "
+        "(thorough: every offset; quick: every 7th + boundaries), 1-8 such clients at once and bursts of 20/48 (thorough: up to 130), for each bound socket type; a well-behaved client connects "
         "before, during and after, exchanges a message; the monitor's events are compared with the handshake model's verdict for each misbehaving client; "
         "distinct = distinct scenario; non-trivial = at least one misbehaving client is still pending when the well-behaved one connects")
 TYPES = ["PULL", "REP", "ROUTER", "DEALER", "PUB", "XPUB", "SUB", "PUSH", "REQ"]
@@ -41,6 +41,15 @@ def cases(tier, rng):
             ops += ["conn 0", "xchg 0", "xchg %d" % (m + 1), "monitor"]
             out.append("m%d rt %s mon / %s" % (k, t, " / ".join(ops)))
             k += 1
+        # many simultaneous misbehaving clients (k is not bounded by the property: any fixed cap on pending handshakes is a violation)
+        for transport in (("tcp4", "ipc") if tier == "thorough" else (rng.choice(["tcp4", "ipc"]),)):
+            for m in ((17, 33, 64, 130) if tier == "thorough" else (20, 48)):
+                ops = ["bind " + transport, "conn 0"]
+                for _ in range(m):
+                    ops.append("staller 0 off=%d mode=%s" % (rng.randint(0, n - 1), rng.choice(["stop", "stop", "stop", "garbage", "close"])))
+                ops += ["conn 0", "xchg 0", "xchg %d" % (m + 1), "monitor"]
+                out.append("g%d rt %s mon / %s" % (k, t, " / ".join(ops)))
+                k += 1
     return out
 
 
